@@ -186,6 +186,19 @@ def _run_anti(ctx, spec, rng):
         if n == 2:
             want = 1 - 0.5 * ref.trace_norm(rhos[0] - rhos[1])
             ctx.check("O3:common-quantum-overlap", None, dev=abs(float(np.real(cqo)) - want), tol=1e-4, sig=sig + ("pair",), nt=True, mech="common_quantum_overlap:pair-closed-form", detail={"cqo": cqo, "want": want})
+    # two mixed states in dimension 3..5 (the difference has several eigenvalues of either sign): overlap = 1 - |rho_0 - rho_1|_1 / 2
+    if r % 4 == 1:
+        dd = int(rng.integers(3, 6))
+        pair = [gen.density(rng, dd, int(rng.integers(2, dd + 1)), bool(r % 8 == 1)) for _ in range(2)]
+        if r % 8 == 5:  # commuting block-structured pair
+            w0, w1 = np.sort(rng.random(dd))[::-1], np.sort(rng.random(dd))
+            pair = [np.diag(w0 / w0.sum()), np.diag(w1 / w1.sum())]
+        ctx.evals["solver-call"] += 1
+        cq2 = ctx.call(common_quantum_overlap, [x.copy() for x in pair], solver=True)
+        if cq2 is not FAILED:
+            want2 = 1 - 0.5 * ref.trace_norm(pair[0] - pair[1])
+            ctx.check("O3:common-quantum-overlap", None, dev=abs(float(np.real(cq2)) - want2), tol=1e-4, sig=("mixed-pair", dd), nt=True, mech="common_quantum_overlap:pair-closed-form[mixed]",
+                      detail={"d": dd, "cqo": cq2, "want": want2})
     # a generic random set: decide by the certified lower bound
     if r % 3 == 0:
         dd = int(rng.integers(2, 4))
